@@ -113,6 +113,9 @@ func runC04h(seed uint64, n int, outDir string, replay string) {
 			for b := 0; b < blocksPerCase; b++ {
 				st, err := w.step()
 				if errors.Is(err, errHierStuck) {
+					if os.Getenv("QVH_DEBUG") != "" {
+						fmt.Fprintln(os.Stderr, "STUCK:", err)
+					}
 					o.Count("case-cut-short:coordinator-stuck")
 					break
 				}
